@@ -129,6 +129,14 @@ func Run(r *core.Run) {
 		cases[i].ID = i
 	}
 	t0 := time.Now()
+	// layer 2 runs alongside layer 1 (both drive worker subprocesses)
+	l2done := make(chan struct{})
+	go func() {
+		defer close(l2done)
+		if filter == "" {
+			RunLayer2(r)
+		}
+	}()
 	outs := fault.Run(cases, runtime.NumCPU()/2, 10*time.Minute, nil)
 	hist := map[string]int{}
 	for i, o := range outs {
@@ -175,9 +183,7 @@ func Run(r *core.Run) {
 	r.Set("l1_outcome_histogram", hist)
 	r.Set("l1_wall_s", int(time.Since(t0).Seconds()))
 	r.Set("l1_plans", fmt.Sprint(plans))
-	if filter == "" {
-		RunLayer2(r)
-	}
+	<-l2done
 	ev := int(r.Get("l1_executions")) + int(r.Get("l2_calls"))
 	r.Set("evaluations", ev)
 	r.Set("distinct_nontrivial", r.NDistinct("l1_cases")+r.NDistinct("l2_cases"))
